@@ -22,6 +22,9 @@
      Deterministic         finished definitions of the same function have the same bytes
    bytes are abstracted as <<function, own units, foreign units>>.
 
+   CtxEarly = TRUE: a read-back installs its dummy definition as the global context BEFORE it takes the lock;
+   ClearLate = TRUE: a build / read-back clears the global context AFTER it released the lock.  Both must break
+   Isolation (units of the definition being built by another thread attach elsewhere).
    Constants ClearOnFail / ClearOnReadFail / UseLock switch off one mechanism each (ClearOnReadFail =
    FALSE: a read-back clears the context on success and on its own error type only): the checks run those
    configurations too and REQUIRE the violation (the invariants are not vacuous).
@@ -29,7 +32,7 @@
    The predicates ExclusiveOK, IdleOK, DetOK are the ones TraceBuild.tla evaluates on the
    observations recorded from real (threaded) builds.                                        *)
 EXTENDS Naturals, Sequences, FiniteSets, TLC
-CONSTANTS Threads, Funcs, MaxAttempts, ClearOnFail, ClearOnReadFail, UseLock
+CONSTANTS Threads, Funcs, MaxAttempts, ClearOnFail, ClearOnReadFail, UseLock, CtxEarly, ClearLate
 Kinds == {"build", "read"}
 Outcomes == {"ok", "raise_func", "raise_check"}
 VARIABLES lock, ctx, pc, att, nb, owner, fin, natt, orphans
@@ -40,7 +43,7 @@ Init == /\ lock = 0 /\ ctx = 0 /\ pc = [t \in Threads |-> "idle"] /\ att = [t \i
         /\ nb = 0 /\ owner = <<>> /\ fin = {} /\ natt = [t \in Threads |-> 0] /\ orphans = {}
 
 \* ---- state predicates shared with the trace spec
-InFunc(p) == p \in {"f1", "f2", "chk", "done", "fail"}       \* between SetCtx and the clearing of the context
+InFunc(p) == p \in {"f1", "f2", "chk", "done", "fail", "want2", "doneL", "failL"}       \* between SetCtx and the clearing of the context
 ExclusiveOK(pcs) == \A s, t \in DOMAIN pcs : (s # t /\ InFunc(pcs[s])) => ~InFunc(pcs[t])
 Building(p) == p \notin {"idle", "want"}
 IdleOK(lk, cx, pcs) == (\A t \in DOMAIN pcs : ~Building(pcs[t])) => (lk = 0 /\ cx = 0)
@@ -55,8 +58,14 @@ Begin(t) == /\ pc[t] = "idle" /\ natt[t] < MaxAttempts
                   att' = [att EXCEPT ![t] = [id |-> nb + 1, f |-> f, out |-> o, kind |-> k]]
             /\ nb' = nb + 1 /\ pc' = [pc EXCEPT ![t] = "want"]
             /\ UNCHANGED <<lock, ctx, owner, fin, natt, orphans>>
-Acquire(t) == /\ pc[t] = "want" /\ (UseLock => lock = 0)
-              /\ lock' = (IF UseLock THEN t ELSE lock) /\ pc' = [pc EXCEPT ![t] = "acq"]
+Early(t) == CtxEarly /\ att[t].kind = "read"
+\* (model variant) the read-back writes the global context before it has the lock
+SetCtxEarly(t) == /\ pc[t] = "want" /\ Early(t) /\ ctx' = att[t].id /\ pc' = [pc EXCEPT ![t] = "want2"]
+                  /\ UNCHANGED <<lock, att, nb, owner, fin, natt, orphans>>
+Acquire(t) == /\ (pc[t] = "want" /\ ~Early(t)) \/ pc[t] = "want2"
+              /\ (UseLock => lock = 0)
+              /\ lock' = (IF UseLock THEN t ELSE lock)
+              /\ pc' = [pc EXCEPT ![t] = IF pc[t] = "want2" THEN "f1" ELSE "acq"]
               /\ UNCHANGED <<ctx, att, nb, owner, fin, natt, orphans>>
 SetCtx(t) == /\ pc[t] = "acq" /\ ctx' = att[t].id /\ pc' = [pc EXCEPT ![t] = "f1"]
              /\ UNCHANGED <<lock, att, nb, owner, fin, natt, orphans>>
@@ -76,21 +85,32 @@ Check(t) == /\ pc[t] = "chk"
                                                      Cardinality(Has(att[t].id) \ Own(att[t].id))>>,
                                          lost |-> Cardinality(Own(att[t].id) \ Has(att[t].id))]}
             /\ UNCHANGED <<lock, ctx, att, nb, owner, natt, orphans>>
-ClearOk(t) == /\ pc[t] = "done" /\ ctx' = 0 /\ pc' = [pc EXCEPT ![t] = "rel"]
+\* normal order: clear the context, then release; ClearLate: release first (pc done -> doneL, fail -> failL), clear after
+ClearOk(t) == /\ pc[t] = "done" /\ ~ClearLate /\ ctx' = 0 /\ pc' = [pc EXCEPT ![t] = "rel"]
               /\ UNCHANGED <<lock, att, nb, owner, fin, natt, orphans>>
 Cleared(a) == IF a.kind = "build" THEN ClearOnFail ELSE (ClearOnReadFail \/ a.out = "raise_check")
-ClearFail(t) == /\ pc[t] = "fail" /\ ctx' = (IF Cleared(att[t]) THEN 0 ELSE ctx) /\ pc' = [pc EXCEPT ![t] = "rel"]
+ClearFail(t) == /\ pc[t] = "fail" /\ ~ClearLate
+                /\ ctx' = (IF Cleared(att[t]) THEN 0 ELSE ctx) /\ pc' = [pc EXCEPT ![t] = "rel"]
                 /\ UNCHANGED <<lock, att, nb, owner, fin, natt, orphans>>
+Finished(t) == /\ pc' = [pc EXCEPT ![t] = "idle"] /\ natt' = [natt EXCEPT ![t] = @ + 1]
+               /\ att' = [att EXCEPT ![t] = NoAtt]
 Release(t) == /\ pc[t] = "rel" /\ lock' = (IF lock = t THEN 0 ELSE lock)
-              /\ pc' = [pc EXCEPT ![t] = "idle"] /\ natt' = [natt EXCEPT ![t] = @ + 1]
-              /\ att' = [att EXCEPT ![t] = NoAtt]
+              /\ Finished(t)
               /\ UNCHANGED <<ctx, nb, owner, fin, orphans>>
+ReleaseFirst(t) == /\ ClearLate /\ pc[t] \in {"done", "fail"}
+                   /\ lock' = (IF lock = t THEN 0 ELSE lock)
+                   /\ pc' = [pc EXCEPT ![t] = IF pc[t] = "done" THEN "doneL" ELSE "failL"]
+                   /\ UNCHANGED <<ctx, att, nb, owner, fin, natt, orphans>>
+ClearAfter(t) == /\ pc[t] \in {"doneL", "failL"}
+                 /\ ctx' = (IF pc[t] = "doneL" \/ Cleared(att[t]) THEN 0 ELSE ctx)
+                 /\ Finished(t)
+                 /\ UNCHANGED <<lock, nb, owner, fin, orphans>>
 \* a unit created (and SynthDef.wrap tried) while nobody is building or reading
 Orphan(t) == /\ pc[t] = "idle" /\ \A s \in Threads : ~Building(pc[s])
              /\ Cardinality(orphans) < 2
              /\ orphans' = orphans \cup {[n |-> Cardinality(orphans) + 1, owner |-> ctx, wrap |-> ctx # 0]}
              /\ UNCHANGED <<lock, ctx, pc, att, nb, owner, fin, natt>>
-Next == \E t \in Threads : Begin(t) \/ Acquire(t) \/ SetCtx(t) \/ Create1(t) \/ Create2(t) \/ Check(t)
+Next == \E t \in Threads : Begin(t) \/ SetCtxEarly(t) \/ ReleaseFirst(t) \/ ClearAfter(t) \/ Acquire(t) \/ SetCtx(t) \/ Create1(t) \/ Create2(t) \/ Check(t)
                            \/ ClearOk(t) \/ ClearFail(t) \/ Release(t) \/ Orphan(t)
 Spec == Init /\ [][Next]_vars
 
